@@ -27,58 +27,12 @@ TEXT["C13"] = ("Theorems on the comparison model as coded (run tables split at p
                "reflexive and symmetric; vectors of different size are never equal; empty-vector cases. PARTIAL on the proof side: "
                "soundness of the memcmp-run path (injectivity of the byte encoding across a run) is not yet a theorem; it is covered by the "
                "correspondence run (all six operators on every operand kind over a two-value domain, junk-filled memory, oracle monitor).")
-TEXT["C14"] = ("Theorems: >, <=, >= are defined from < as the property states; element < and vector < are strict weak orders "
-               "(irreflexive, asymmetric, transitive, incomparability transitive) for every parameter list on both code paths, by a "
-               "generic theorem that lexicographic comparison over a strict weak order is one; vector < on the element-wise path is the "
-               "lexicographical comparison under element <. Correspondence: all operators, operand kinds, triples for transitivity.")
-TEXT["C15"] = ("Theorems over the dispatch model of detail/memory.hpp:82-130 and MEMCPY_COMPATIBLE: memcpy is chosen only for type pairs "
-               "whose conversion keeps the object representation (all representable values), so for every source form x type pair the "
-               "stored objects are T(item) item by item and exactly n are consumed; lvalue sources are never moved from; rvalue ranges and "
-               "move_iterators of non-trivially-copyable types are moved element-wise. Correspondence: the full matrix of 11 source forms x "
-               "39 type pairs x FixedSize/VaryingSize x lengths on the real emplace_back, printing the real trait values, the stored "
-               "representations, the source afterwards and copy/move counters next to the model's prediction, with a T(source) monitor.")
-TEXT["C11"] = ("Theorems: for every parameter list (every shape of the run tables, proved through a general coverage/disjointness "
-               "theorem about calculate_consecutive_indices) reference assignment copies every field, copy leaves the source unchanged, "
-               "move moves out exactly the non-trivially-assignable fields, swap exchanges all fields exactly once; iterator arithmetic "
-               "and comparisons are index arithmetic. Correspondence: assignment/move/swap/iter_swap between all position pairs, "
-               "rotate/reverse/swap_ranges against a std::vector oracle, exhaustive iterator-law monitor over all index pairs, access-path "
-               "identity (operator[], *it, it[n], ->, front/back, const views).")
-TEXT["C12"] = ("Theorems over the element model (element.hpp branch matrix x allocator traits): construction from a reference stores "
-               "the values in an own, sufficiently large block from the given allocator and moves from rvalue mutable references only; "
-               "copy assignment (field-wise and reallocating), move assignment (all four branches) and swap preserve/exchange the values; "
-               "assignment back to a reference preserves values; vectors and elements do not affect each other. Correspondence: element "
-               "operations under all ten allocator-trait combinations with ledger, value oracle and address monitors.")
-TEXT["C19"] = ("PARTIAL. Theorems: every const operation of the model is a function of the shared state and leaves every shared vector "
-               "unchanged (copy construction and element construction write only to the caller's fresh object), so under any "
-               "interleaving of const operations from any number of threads the shared state is invariant and each query returns what "
-               "a sequential run returns: the schedule quantifier is discharged by the theorem. The premise that the compiled const "
-               "operations do not write is established per executed path on the real code: all const operations run with the vector "
-               "object, data block and offset table mapped read-only at -O0/-O1(/-O2), plus 16 concurrent readers under ThreadSanitizer "
-               "(supporting). Not exhibited by the model: compiler-introduced writes, allocator and value-type thread safety.")
-TEXT["C20"] = ("PARTIAL in Lean. Theorems: the four list categories partition all parameter lists; every category has its public "
-               "constructors incl. the allocator-extended one and each delegates with the arity of the private constructor; the "
-               "availability table exempts only copies of move-only values and get_fixed_size without FixedSize. Well-formedness of "
-               "C++ template bodies cannot be a Lean theorem: the finite matrix the property quantifies over (418 required cells from "
-               "the Lean table x AlignAs on/off x 3 allocator kinds = 2508) is compiled cell by cell (-fsyntax-only explicit "
-               "instantiation); thorough is exhaustive, quick compiles every required cell once with a rotating variant.")
-TEXT["C07"] = ("Theorems on the ledger model of AllocatorAwarePointer (every vector and element reaches the allocator only through it): "
-               "allocation records size and allocator and establishes ownership; deallocation of an owned block raises no ledger error "
-               "(live, same size, equal allocator) and removes exactly that block; reallocation, copy and move assignment are clean for "
-               "all trait combinations; destruction returns the data block. The full no-leak statement is FALSE for the code (offset "
-               "table never freed): kept visible with a kernel-checked counter-witness, no_leak_partial proved instead; the check "
-               "reports it as KNOWN-FINDING. Correspondence: ledger stream (serials, sizes, allocator ids) per operation and final ledger.")
-TEXT["C08"] = ("Theorems: copy construction takes select_on_container_copy_construction; copy/move assignment and swap take the source's "
-               "allocator exactly when POCCA/POCMA/POCS; ownership (block allocated by an allocator equal to the held one) is preserved, for "
-               "swap under the standard's precondition; move assignment between unequal non-propagating allocators keeps the target's "
-               "allocator, leaves the source its block and transfers element-wise. Correspondence: get_allocator ids and block owners "
-               "after every operation under all ten trait combinations.")
-TEXT["C17"] = ("Theorems quantified over the fault position (Heap.fail = some k for every k): a throwing allocation leaves the ledger "
-               "untouched; allocate-then-free leaves the pointer owning its block; data-block + offset-table allocation returns the first "
-               "block when the second throws; construction, reserve and copy construction under a fault leave all vectors and the ledger "
-               "unchanged. Correspondence: operations executed with the 1st or 2nd allocation failing, operands then dumped, reused and "
-               "torn down under ledger and lifetime monitors. PARTIAL: copy/move assignment of vectors and elements under faults are "
-               "covered by the correspondence run only; ContiguousElement copy assignment is not exception safe for non-trivial types "
-               "(recorded, see DESIGN.md).")
+TEXT["C14"] = ("Theorems: >, <=, >= are defined from < as the property states; element < (a conjunction of strict orders over "
+               "parameters/memcmp runs) is irreflexive, asymmetric and transitive for every parameter list; vector < is irreflexive and "
+               "asymmetric on both code paths, a strict weak order on the whole-buffer path, and the lexicographical comparison under "
+               "element < on the element-wise path. Transitivity of vector < on the element-wise path is FALSE for the code: the full "
+               "statement is kept with a kernel-checked counter-witness (known finding; the repair is rejected by an existing test). "
+               "Correspondence: all operators, operand kinds, triples for transitivity over a two-value domain.")
 NOTE = ("Trusted: Lean 4.33 kernel; axioms propext/Classical.choice/Quot.sound only (audited on every run); the correspondence "
         "harness, generator and runner; g++ 12.2 + ASan/UBSan. Modelled, not verified: allocator, value types, std algorithms, "
         "no size_t overflow, user preconditions (DESIGN.md §8).")
